@@ -344,8 +344,8 @@ theorem toFits_ok (fx : Fixes) (h : Heap K) (o : Nat) (w : WaveArg K) (d : Optio
                 · trivial
 
 theorem newEmpirical_ok (fx : Fixes) (h : Heap K) (hw : WF h) (kind : Kind) (x y : Nat) (xc yc : List K)
-    (keep : Bool) (md : Option Nat) (f0 : Bool) :
-    okAll h (newEmpirical fx h kind x y xc yc keep md f0).1 := by
+    (keep : Bool) (md : Option Nat) (f0 : Bool) (zi : Option (K × ZType)) :
+    okAll h (newEmpirical fx h kind x y xc yc keep md f0 zi).1 := by
   unfold newEmpirical
   split
   · rename_i cx cy hx hy
@@ -370,7 +370,7 @@ theorem newEmpirical_ok (fx : Fixes) (h : Heap K) (hw : WF h) (kind : Kind) (x y
         · cases hax : cx.container.aliased <;> cases hay : cy.container.aliased <;>
             cases hc : (!keep && (cellData cy yc).any fun v => decide (v < 0)) <;>
             cases hf : fx.copyBeforeClip <;>
-            simp [okAll, Effect.ok, Heap.apply, freshObj, HTree.tables, length_upd, hax, hay, hc, hf] <;>
+            simp [okAll, Effect.ok, Heap.apply, freshObjZ, HTree.tables, length_upd, hax, hay, hc, hf] <;>
             omega
   · trivial
 
@@ -578,9 +578,9 @@ theorem observation_ok (h : Heap K) (hw : WF h) (src band : Nat) (force : Force)
 theorem effects_ok (fx : Fixes) (env : HEnv K) (h : Heap K) (hw : WF h) (c : Call K) :
     okAll h (effects fx env h c).1 := by
   cases c with
-  | newEmpirical kind x y xc yc keep md f0 => exact newEmpirical_ok fx h hw kind x y xc yc keep md f0
-  | newAnalytic kind l => simp [effects, okAll, Effect.ok, freshObj, HTree.tables]
-  | newBlackBody t lab => simp [effects, okAll, Effect.ok, freshObj, HTree.tables]
+  | newEmpirical kind x y xc yc keep md f0 zi => exact newEmpirical_ok fx h hw kind x y xc yc keep md f0 zi
+  | newAnalytic kind l zi => simp [effects, okAll, Effect.ok, freshObjZ, HTree.tables]
+  | newBlackBody t lab zi => simp [effects, okAll, Effect.ok, freshObjZ, HTree.tables]
   | sample o w conv => exact sampleCall_ok fx env h o w conv
   | arith op a b => exact arith_ok' h hw op a b
   | rmul v a => exact arith_ok' h hw .mul a (.real v)
